@@ -71,6 +71,14 @@ CHECKS = {
    "grammar-bounded exhaustive enumeration of hostile HTTP requests (deviation-bounded product of menus plus all short byte strings) into the real Handler.ServeHTTP, judged by the reference decoder",
    "Every combination of at most 2 (quick) / 3 (thorough) simultaneous deviations from a valid request over method, HTTP version, Content-Type, encoding, accept list, timeout string, ~20 body shapes and handler read limit, plus every byte string of length <= 4 / 6 over a framing alphabet as the body, for every protocol, codec and RPC kind (6e4 quick, 2.2e6 thorough). ServeHTTP must return, not panic, answer with a response that refwire accepts for the selected protocol or a bare 405/415/505, run user code at most once and only with messages that decode from the request, use the documented codes (unimplemented for unknown compression, invalid_argument for bad timeouts, undecodable payloads and oversize messages) and never answer malformed framing as success.",
    "requests are handed to ServeHTTP directly; unknown request flags, trailing bytes after a unary message and zero-length payloads under any codec/flag are recorded but not judged"),
+ "C03": ("fault_enumeration", "DESIGN.md 4/C03",
+   "exhaustive enumeration of environment answers (read segmentations) over a corpus of valid bodies replayed to the real client/handler, differential oracle against one-piece delivery",
+   "A corpus of valid request and response bodies captured from real peers (the library and the reference encoder) in all three protocols is replayed to the real client and handler under every segmentation into non-empty reads - all 2^(n-1) for bodies up to 12 (quick) / 16 (thorough) bytes; every choice of up to 2 / 3 cut positions and all strides 1..8 for longer ones; every position around each envelope prefix and payload boundary for 70 KiB bodies - each with EOF on a separate read and with EOF returned together with the last data. The observation (messages, end of stream or error code and text, metadata) must equal the one-piece delivery; a stuck read loop is a deterministic deadlock in the bubble.",
+   "segmentation is applied at the io.Reader the library reads from; the corpus is finite (about 60 bodies quick, 66 thorough)"),
+ "C04": ("fault_enumeration", "DESIGN.md 4/C04",
+   "exhaustive crash-point / fault enumeration (every cut offset x terminal answer x placement x trailer presence) over the corpus of valid bodies replayed to the real client/handler",
+   "Every body of the corpus is cut at every byte offset 0..len (every offset around prefixes and boundaries for 70 KiB bodies) and ended with a clean EOF, io.ErrUnexpectedEOF or a transport error, delivered on a separate read or together with the last data, with the gRPC HTTP trailers delivered or dropped. A response cut before its terminator (status trailers, gRPC-Web trailer frame, Connect end-of-stream envelope, complete unary body) must fail the call with a coded non-OK error, the delivered messages must be a prefix of those sent, nothing may hang or panic, and the complete body must give the uncut outcome; a request body that failed or stopped inside an envelope must never give the handler a clean end of stream nor be answered OK.",
+   "unary Connect bodies cut with a clean EOF are different complete bodies and are not judged; single-request kinds never read past their one envelope, so later failures are unobservable; write-side faults are covered through C14's transport events, not here"),
 }
 
 PENDING = {
